@@ -53,7 +53,20 @@ def sexpToSpec? : Nat → List Sexp → Option Spec
     | list (atom "attr" :: _) => pure (.attr (← sexpToSAttr? x) rest)
     | _ => none
 
-/-- `(var <name> <kind> <dtypeName> ((<fq> <extent>) ...))` | `(group <name> ((<dim> <size>) ...) (<kid> ...))` -/
+/-- a served attribute value: `(i <0|1 unsigned> <lg itemsize> <int>)`, `(f <4|8> x<text>)`, `(t x<text>)` -/
+def sexpToSrvVal? : Sexp → Option SrvVal
+  | list [atom "i", u, lg, i] => do
+    let lg ← asNat? lg
+    if h : lg < 4 then pure (.int ((← asNat? u) == 1) ⟨lg, h⟩ (← asInt? i)) else none
+  | list [atom "f", w, t] => do pure (.float ((← asNat? w) == 8) (← asStr? t))
+  | list [atom "t", t] => do pure (.text (← asStr? t))
+  | _ => none
+
+def sexpToSrvAttr? : Sexp → Option SrvAttr
+  | list [n, list vs] => do pure ⟨← asStr? n, ← vs.mapM sexpToSrvVal?⟩
+  | _ => none
+
+/-- `(var <name> <kind> <dtypeName> ((<fq> <extent>) ...) [(<attr> ...) (<map> ...)])` | `(group <name> ((<dim> <size>) ...) (<kid> ...))` -/
 def sexpToSrv? : Nat → List Sexp → Option SrvTree
   | 0, _ => none
   | _ + 1, [] => some .nil
@@ -64,7 +77,12 @@ def sexpToSrv? : Nat → List Sexp → Option SrvTree
       let dims ← dims.mapM fun d => match d with
         | list [fq, sz] => do pure (← asStr? fq, ← asInt? sz)
         | _ => none
-      pure (.var ⟨← asStr? n, k.toList.headD ' ', ← asStr? dt, dims⟩ rest)
+      pure (.var ⟨← asStr? n, k.toList.headD ' ', ← asStr? dt, dims, [], []⟩ rest)
+    | list [atom "var", n, atom k, dt, list dims, list attrs, list maps] =>
+      let dims ← dims.mapM fun d => match d with
+        | list [fq, sz] => do pure (← asStr? fq, ← asInt? sz)
+        | _ => none
+      pure (.var ⟨← asStr? n, k.toList.headD ' ', ← asStr? dt, dims, ← attrs.mapM sexpToSrvAttr?, ← maps.mapM asStr?⟩ rest)
     | list [atom "group", n, list dims, list kids] =>
       let dims ← dims.mapM fun d => match d with
         | list [dn, sz] => do pure (← asStr? dn, ← asNat? sz)
@@ -113,21 +131,22 @@ def handleDmrSpec : List Sexp → Option String
       | list [dn, sz] => do pure (← asStr? dn, ← asNat? sz)
       | _ => none
     pure (xnodeStr (renderServer (← asStr? name) dims (← sexpToSrv? 4096 kids)))
-  | [atom "dmr-find", x] => do
-    -- `dataset[<group path>/<name>]` for every parsed variable, in document order: the key of what is found
+  | [atom "dmr-find", x, list keys] => do
+    -- `dataset[key]` for every key the harness supplies (declared and stored spellings of every declared
+    -- variable's path, document order): the stored key of what is found
     let x ← sexpToXNode? 64 x
-    match parseVars x, datasetTree x with
-    | .ok rs, .ok t =>
-      pure ("(ok" ++ String.join (rs.map fun r =>
-        " (" ++ strToHex r.key ++ " " ++ (match Forest.findVar (pathParts (quoteName r.key)) t with
-          | some f => strToHex f.key
+    let keys ← keys.mapM asStr?
+    match datasetTree x with
+    | .ok t =>
+      pure ("(ok" ++ String.join (keys.map fun k =>
+        " (" ++ strToHex k ++ " " ++ (match getitemPath k t with
+          | some f => strToHex (quoteName f.key)
           | none => "none") ++ ")") ++ ")")
-    | .error e, _ => pure (dmrErr e)
-    | _, .error e => pure (dmrErr e)
+    | .error e => pure (dmrErr e)
   | [atom "dmr-order", x] => do
     let x ← sexpToXNode? 64 x
     match decodeOrder x with
-    | .ok rs => pure ("(ok" ++ String.join (rs.map fun r => " " ++ strToHex r.key) ++ ")")
+    | .ok rs => pure ("(ok" ++ String.join (rs.map fun r => " " ++ strToHex (quoteName r.key)) ++ ")")
     | .error e => pure (dmrErr e)
   | _ => none
 
